@@ -21,6 +21,7 @@ def run(tier, seed):
     EC.mc_verdict(res, PROP, runs, ["Terminates", "CleanAtEnd"])
     tl = [C.gen_tasks("mixed", n, seed + 400, opcode_frac=opfrac), C.gen_tasks("fail", n // 2, seed + 401, opcode_frac=opfrac),
           C.gen_tasks("spawnfail", n // 4, seed + 402, opcode_frac=0.0)]
+    tl.append(C.bundled_observer_tasks(seed, 150 if tier == "quick" else 5000, "mixed"))
     EC.campaign(res, PROP, tl,
                 "executions under the deterministic scheduler with its deadlock detector and step budget: all failure "
                 "patterns, W from 1 to n+1, both schedulers, plus a failing Thread.start(); after run returned the "
